@@ -235,6 +235,16 @@ theorem validDate_reprDate (v : DateV) (hv : v.ok) (hz : v.tz.inXsd) : validDate
     known finding `lex:parse:zone-out-of-range` -/
 def LaxZone (t : Str) : Prop := ∃ pre z, t = pre ++ z ∧ (parseTz z).isSome = true ∧ validTz z = false
 
+/-- a lax zone text has its colon third from the end -/
+theorem LaxZone.colon {t : Str} (h : LaxZone t) : t.reverse[2]? = some ':' := by
+  obtain ⟨pre, z, rfl, hp, hv⟩ := h
+  unfold parseTz at hp
+  split at hp
+  · simp [validTz] at hv
+  · simp [validTz] at hv
+  · simp
+  · simp at hp
+
 theorem all8 {p : Char → Bool} {a b c d e f g h : Char} (hh : [a, b, c, d, e, f, g, h].all p = true) :
     p a = true ∧ p b = true ∧ p c = true ∧ p d = true ∧ p e = true ∧ p f = true ∧ p g = true ∧ p h = true := by
   simpa [and_assoc] using hh
@@ -431,6 +441,455 @@ theorem parseTime_valid_or_lax {s : Str} {v : TimeV} (h : parseTime s = some v) 
             simp; omega
           · right
             exact ⟨h1 :: h2 :: ':' :: m1 :: m2 :: ':' :: s1 :: s2 :: pre, z, by simp [hpz], hp, hv⟩
+        · simp at h
+    · simp at h
+  · simp at h
+
+
+/-! ### xs:dateTime -/
+
+def DateTimeV.ok (v : DateTimeV) : Prop :=
+  dateOk v.year v.month v.day = true ∧ timeOk v.hour v.minute v.second v.micro = true
+
+theorem all14 {p : Char → Bool} {a b c d e f g h i j k l m n : Char}
+    (hh : [a, b, c, d, e, f, g, h, i, j, k, l, m, n].all p = true) :
+    [a, b, c, d].all p = true ∧ p e = true ∧ p f = true ∧ p g = true ∧ p h = true ∧ [i, j, k, l, m, n].all p = true := by
+  simp only [List.all_cons, List.all_nil, Bool.and_true, Bool.and_eq_true] at hh ⊢
+  obtain ⟨h1, h2, h3, h4, h5, h6, h7, h8, h9, h10, h11, h12, h13, h14⟩ := hh
+  exact ⟨⟨h1, h2, h3, h4⟩, h5, h6, h7, h8, h9, h10, h11, h12, h13, h14⟩
+
+theorem parseDateTime_reprDateTime (v : DateTimeV) (hv : v.ok) (hz : v.tz.inPy) :
+    parseDateTime (reprDateTime v) = some v := by
+  obtain ⟨y, mo, d, h, mi, s, us, z⟩ := v
+  have hd := dateOk_bounds hv.1
+  have hb := timeOk_bounds hv.2
+  simp only at hd hb hz
+  have hnl : dropNl (reprDateTime ⟨y, mo, d, h, mi, s, us, z⟩) = reprDateTime ⟨y, mo, d, h, mi, s, us, z⟩ := by
+    apply dropNl_eq_self
+    intro c hc
+    simp only [reprDateTime, List.mem_append, List.mem_cons] at hc
+    rcases hc with h | rfl | h | rfl | h | rfl | h | h
+    · exact pad4_ne_nl _ c h
+    · decide
+    · exact pad2_ne_nl _ c h
+    · decide
+    · exact pad2_ne_nl _ c h
+    · decide
+    · exact reprClock_ne_nl _ _ _ _ c h
+    · exact tzReprIso_ne_nl hz c h
+  unfold parseDateTime
+  rw [hnl]
+  simp only [reprDateTime, pad4_chars (show y < 10000 by omega), pad2_chars (show mo < 100 by omega),
+    pad2_chars (show d < 100 by omega),
+    reprClock_chars (show h < 100 by omega) (show mi < 100 by omega) (show s < 100 by omega),
+    List.cons_append, List.nil_append]
+  have a := d4 (show y < 10000 by omega)
+  have b := d2 (show mo < 100 by omega)
+  have c := d2 (show d < 100 by omega)
+  have e := d2 (show h < 100 by omega)
+  have f := d2 (show mi < 100 by omega)
+  have g := d2 (show s < 100 by omega)
+  simp only [List.all_cons, List.all_nil, isDig_digitChar a.1, isDig_digitChar a.2.1, isDig_digitChar a.2.2.1,
+    isDig_digitChar a.2.2.2, isDig_digitChar b.1, isDig_digitChar b.2, isDig_digitChar c.1, isDig_digitChar c.2,
+    isDig_digitChar e.1, isDig_digitChar e.2, isDig_digitChar f.1, isDig_digitChar f.2, isDig_digitChar g.1,
+    isDig_digitChar g.2, Bool.and_self, ↓reduceIte,
+    parseFracTz_repr (show us < 1000000 by omega) hz, dval_pad4 (show y < 10000 by omega),
+    dval_pad2 (show mo < 100 by omega), dval_pad2 (show d < 100 by omega), dval_pad2 (show h < 100 by omega),
+    dval_pad2 (show mi < 100 by omega), dval_pad2 (show s < 100 by omega)]
+  have h1 : dateOk y mo d = true := hv.1
+  have h2 : timeOk h mi s us = true := hv.2
+  simp [h1, h2]
+
+theorem validDateTime_reprDateTime (v : DateTimeV) (hv : v.ok) (hz : v.tz.inXsd) :
+    validDateTime (reprDateTime v) = true := by
+  obtain ⟨y, mo, d, h, mi, s, us, z⟩ := v
+  have hd := dateOk_bounds hv.1
+  have hok : dateOk y mo d = true := hv.1
+  simp only [dateOk, Bool.and_eq_true, decide_eq_true_eq] at hok
+  have hb := timeOk_bounds hv.2
+  simp only at hd hb hz
+  have a := d4 (show y < 10000 by omega)
+  have b := d2 (show mo < 100 by omega)
+  have c := d2 (show d < 100 by omega)
+  have ht := validTime_reprTime ⟨h, mi, s, us, z⟩ hv.2 hz
+  simp only [reprTime] at ht
+  simp only [validDateTime, reprDateTime, pad4_chars (show y < 10000 by omega), pad2_chars (show mo < 100 by omega),
+    pad2_chars (show d < 100 by omega), List.cons_append, List.nil_append]
+  rw [splitYear_four (isDig_digitChar a.1) (isDig_digitChar a.2.1) (isDig_digitChar a.2.2.1) (isDig_digitChar a.2.2.2)]
+  simp only [isDig_digitChar b.1, isDig_digitChar b.2, isDig_digitChar c.1, isDig_digitChar c.2,
+    dval_pad4 (show y < 10000 by omega), dval_pad2 (show mo < 100 by omega), dval_pad2 (show d < 100 by omega),
+    ht, Bool.and_self, Bool.true_and, Bool.and_true, Bool.and_eq_true, decide_eq_true_eq]
+  omega
+
+theorem parseDateTime_valid_or_lax {s : Str} {v : DateTimeV} (h : parseDateTime s = some v) :
+    validDateTime (dropNl s) = true ∨ LaxZone (dropNl s) := by
+  unfold parseDateTime at h
+  generalize dropNl s = t at h ⊢
+  split at h
+  · next y1 y2 y3 y4 o1 o2 d1 d2 h1 h2 m1 m2 s1 s2 rest =>
+    split at h
+    · next hdig =>
+      obtain ⟨hy, ho1, ho2, hd1, hd2, ht⟩ := all14 hdig
+      obtain ⟨hy1, hy2, hy3, hy4⟩ : isDig y1 = true ∧ isDig y2 = true ∧ isDig y3 = true ∧ isDig y4 = true := by
+        simpa [and_assoc] using hy
+      split at h
+      · simp at h
+      · next us tz hft =>
+        simp only at h
+        split at h
+        · next hok =>
+          simp only [Bool.and_eq_true] at hok
+          have hb := timeOk_bounds hok.2
+          have hdk := hok.1
+          simp only [dateOk, Bool.and_eq_true, decide_eq_true_eq] at hdk
+          rcases parseFracTz_valid_or_lax hft with hv | ⟨pre, z, hpz, hp, hv⟩
+          · left
+            simp only [validDateTime]
+            rw [splitYear_four hy1 hy2 hy3 hy4]
+            simp only [ho1, ho2, hd1, hd2, validTime, ht, validClock, hv, Bool.true_and, Bool.and_true, Bool.and_self,
+              Bool.and_eq_true, decide_eq_true_eq, Bool.or_eq_true]
+            omega
+          · right
+            exact ⟨y1 :: y2 :: y3 :: y4 :: '-' :: o1 :: o2 :: '-' :: d1 :: d2 :: 'T' ::
+              h1 :: h2 :: ':' :: m1 :: m2 :: ':' :: s1 :: s2 :: pre, z, by simp [hpz], hp, hv⟩
+        · simp at h
+    · simp at h
+  · simp at h
+
+/-! ### gYear, gYearMonth, gMonth, gDay, gMonthDay -/
+
+def GYearV.ok (v : GYearV) : Prop := 1 ≤ v.year ∧ v.year ≤ 9999
+def GYearMonthV.ok (v : GYearMonthV) : Prop := 1 ≤ v.year ∧ v.year ≤ 9999 ∧ 1 ≤ v.month ∧ v.month ≤ 12
+def GMonthV.ok (v : GMonthV) : Prop := 1 ≤ v.month ∧ v.month ≤ 12
+def GDayV.ok (v : GDayV) : Prop := 1 ≤ v.day ∧ v.day ≤ 31
+def GMonthDayV.ok (v : GMonthDayV) : Prop := monthDayOk v.month v.day = true
+
+theorem parseTz_head {z : Str} {tz : Tz} (h : parseTz z = some tz) : ∀ x, z.head? = some x → isDig x = false := by
+  intro x hx
+  unfold parseTz at h
+  split at h
+  · simp at hx
+  · simp at hx; subst hx; rfl
+  · next sg h1 h2 m1 m2 =>
+    split at h
+    · next hc =>
+      simp only [List.head?_cons, Option.some.injEq] at hx
+      subst hx
+      simp only [Bool.and_eq_true, Bool.or_eq_true, decide_eq_true_eq] at hc
+      rcases hc.1.1.1.1 with rfl | rfl <;> rfl
+    · simp at h
+  · simp at h
+
+theorem dropNl_ne_nl {s : Str} (h : ∀ c ∈ s, c ≠ '\n') : dropNl s = s := dropNl_eq_self h
+
+theorem gyear_repr {v : GYearV} (hv : v.ok) :
+    ∃ n : Nat, v.year = Int.ofNat n ∧ n < 10000 ∧ 1 ≤ n ∧ reprGYear v = some (pad4 n ++ tzReprDate v.tz) := by
+  obtain ⟨y, z⟩ := v
+  obtain ⟨h1, h2⟩ := hv
+  simp only at h1 h2
+  cases y with
+  | negSucc n => exact absurd h1 (by omega)
+  | ofNat n =>
+    have h1' : (1 : Int) ≤ (n : Int) := h1
+    have h2' : (n : Int) ≤ 9999 := h2
+    refine ⟨n, rfl, by omega, by omega, ?_⟩
+    have : yearInPy (Int.ofNat n) = true := by
+      simp only [yearInPy, Bool.and_eq_true, decide_eq_true_eq]; exact ⟨h1, h2⟩
+    simp only [reprGYear, this, Bool.not_true, Bool.and_false, Bool.false_eq_true, ↓reduceIte, fmt04, pad4_eq]
+
+theorem parseGYear_reprGYear (v : GYearV) (hv : v.ok) (hz : v.tz.inPy) :
+    ∃ s, reprGYear v = some s ∧ parseGYear s = some v := by
+  obtain ⟨n, hy, hn, hn1, hr⟩ := gyear_repr hv
+  obtain ⟨y, z⟩ := v
+  simp only at hy hz hr
+  subst hy
+  refine ⟨_, hr, ?_⟩
+  have hnl : dropNl (pad4 n ++ tzReprDate z) = pad4 n ++ tzReprDate z := by
+    apply dropNl_eq_self
+    intro c hc
+    rcases List.mem_append.1 hc with h | h
+    · exact pad4_ne_nl _ c h
+    · exact tzReprDate_ne_nl hz c h
+  unfold parseGYear
+  rw [hnl, pad4_chars hn]
+  have a := d4 hn
+  simp [isDig_digitChar a.1, isDig_digitChar a.2.1, isDig_digitChar a.2.2.1, isDig_digitChar a.2.2.2,
+    parseTz_tzReprDate hz, dval_pad4 hn]
+
+theorem validGYear_reprGYear (v : GYearV) (hv : v.ok) (hz : v.tz.inXsd) :
+    ∃ s, reprGYear v = some s ∧ validGYear s = true := by
+  obtain ⟨n, hy, hn, hn1, hr⟩ := gyear_repr hv
+  refine ⟨_, hr, ?_⟩
+  have a := d4 hn
+  rw [pad4_chars hn]
+  simp only [validGYear, List.cons_append, List.nil_append]
+  rw [splitYear_four_tz (isDig_digitChar a.1) (isDig_digitChar a.2.1) (isDig_digitChar a.2.2.1) (isDig_digitChar a.2.2.2)
+    tzReprDate_head]
+  exact validTz_tzReprDate hz
+
+theorem all4 {p : Char → Bool} {a b c d : Char} (hh : [a, b, c, d].all p = true) :
+    p a = true ∧ p b = true ∧ p c = true ∧ p d = true := by
+  simpa [and_assoc] using hh
+
+theorem parseGYear_valid_or_lax {s : Str} {v : GYearV} (h : parseGYear s = some v) :
+    validGYear (dropNl s) = true ∨ LaxZone (dropNl s) := by
+  unfold parseGYear at h
+  generalize dropNl s = t at h ⊢
+  split at h
+  · next y1 y2 y3 y4 z =>
+    split at h
+    · next hdig =>
+      obtain ⟨h1, h2, h3, h4⟩ := all4 hdig
+      cases hp : parseTz z with
+      | none => simp [hp] at h
+      | some tz =>
+        by_cases hv : validTz z = true
+        · left
+          simp only [validGYear]
+          rw [splitYear_four_tz h1 h2 h3 h4 (parseTz_head hp)]
+          exact hv
+        · right; exact ⟨[y1, y2, y3, y4], z, rfl, by simp [hp], by simpa using hv⟩
+    · simp at h
+  · simp at h
+
+theorem gyearmonth_repr {v : GYearMonthV} (hv : v.ok) :
+    ∃ n : Nat, v.year = Int.ofNat n ∧ n < 10000 ∧ 1 ≤ n ∧
+      reprGYearMonth v = some (pad4 n ++ '-' :: (pad2 v.month ++ tzReprDate v.tz)) := by
+  obtain ⟨y, m, z⟩ := v
+  obtain ⟨h1, h2, _, _⟩ := hv
+  simp only at h1 h2
+  cases y with
+  | negSucc n => exact absurd h1 (by omega)
+  | ofNat n =>
+    have h1' : (1 : Int) ≤ (n : Int) := h1
+    have h2' : (n : Int) ≤ 9999 := h2
+    refine ⟨n, rfl, by omega, by omega, ?_⟩
+    have : yearInPy (Int.ofNat n) = true := by
+      simp only [yearInPy, Bool.and_eq_true, decide_eq_true_eq]; exact ⟨h1, h2⟩
+    simp only [reprGYearMonth, this, Bool.not_true, Bool.and_false, Bool.false_eq_true, ↓reduceIte, fmt04, pad4_eq]
+
+theorem parseGYearMonth_reprGYearMonth (v : GYearMonthV) (hv : v.ok) (hz : v.tz.inPy) :
+    ∃ s, reprGYearMonth v = some s ∧ parseGYearMonth s = some v := by
+  obtain ⟨n, hy, hn, hn1, hr⟩ := gyearmonth_repr hv
+  obtain ⟨y, m, z⟩ := v
+  obtain ⟨_, _, hm1, hm2⟩ := hv
+  simp only at hy hz hr hm1 hm2
+  subst hy
+  refine ⟨_, hr, ?_⟩
+  have hnl : dropNl (pad4 n ++ '-' :: (pad2 m ++ tzReprDate z)) = pad4 n ++ '-' :: (pad2 m ++ tzReprDate z) := by
+    apply dropNl_eq_self
+    intro c hc
+    simp only [List.mem_append, List.mem_cons] at hc
+    rcases hc with h | rfl | h | h
+    · exact pad4_ne_nl _ c h
+    · decide
+    · exact pad2_ne_nl _ c h
+    · exact tzReprDate_ne_nl hz c h
+  unfold parseGYearMonth
+  rw [hnl, pad4_chars hn, pad2_chars (show m < 100 by omega)]
+  have a := d4 hn
+  have b := d2 (show m < 100 by omega)
+  simp [isDig_digitChar a.1, isDig_digitChar a.2.1, isDig_digitChar a.2.2.1, isDig_digitChar a.2.2.2,
+    isDig_digitChar b.1, isDig_digitChar b.2, parseTz_tzReprDate hz, dval_pad4 hn, dval_pad2 (show m < 100 by omega),
+    hm1, hm2]
+
+theorem validGYearMonth_reprGYearMonth (v : GYearMonthV) (hv : v.ok) (hz : v.tz.inXsd) :
+    ∃ s, reprGYearMonth v = some s ∧ validGYearMonth s = true := by
+  obtain ⟨n, hy, hn, hn1, hr⟩ := gyearmonth_repr hv
+  refine ⟨_, hr, ?_⟩
+  obtain ⟨_, _, hm1, hm2⟩ := hv
+  have a := d4 hn
+  have b := d2 (show v.month < 100 by omega)
+  rw [pad4_chars hn, pad2_chars (show v.month < 100 by omega)]
+  simp only [validGYearMonth, List.cons_append, List.nil_append]
+  rw [splitYear_four (isDig_digitChar a.1) (isDig_digitChar a.2.1) (isDig_digitChar a.2.2.1) (isDig_digitChar a.2.2.2)]
+  simp [isDig_digitChar b.1, isDig_digitChar b.2, dval_pad2 (show v.month < 100 by omega), hm1, hm2, validTz_tzReprDate hz]
+
+theorem parseGYearMonth_valid_or_lax {s : Str} {v : GYearMonthV} (h : parseGYearMonth s = some v) :
+    validGYearMonth (dropNl s) = true ∨ LaxZone (dropNl s) := by
+  unfold parseGYearMonth at h
+  generalize dropNl s = t at h ⊢
+  split at h
+  · next y1 y2 y3 y4 m1 m2 z =>
+    split at h
+    · next hdig =>
+      obtain ⟨h1, h2, h3, h4, h5, h6⟩ := all6 hdig
+      split at h
+      · simp at h
+      · next tz hp =>
+        simp only at h
+        split at h
+        · next hm =>
+          simp only [Bool.and_eq_true, decide_eq_true_eq] at hm
+          by_cases hv : validTz z = true
+          · left
+            simp only [validGYearMonth]
+            rw [splitYear_four h1 h2 h3 h4]
+            simp [h5, h6, hm.1, hm.2, hv]
+          · right; exact ⟨[y1, y2, y3, y4, '-', m1, m2], z, rfl, by simp [hp], by simpa using hv⟩
+        · simp at h
+    · simp at h
+  · simp at h
+
+theorem parseGMonth_reprGMonth (v : GMonthV) (hv : v.ok) (hz : v.tz.inPy) : parseGMonth (reprGMonth v) = some v := by
+  obtain ⟨m, z⟩ := v
+  obtain ⟨h1, h2⟩ := hv
+  simp only at h1 h2 hz
+  have hnl : dropNl (reprGMonth ⟨m, z⟩) = reprGMonth ⟨m, z⟩ := by
+    apply dropNl_eq_self
+    intro c hc
+    simp only [reprGMonth, List.mem_append, List.mem_cons] at hc
+    rcases hc with rfl | rfl | h | h
+    · decide
+    · decide
+    · exact pad2_ne_nl _ c h
+    · exact tzReprDate_ne_nl hz c h
+  unfold parseGMonth
+  rw [hnl]
+  have b := d2 (show m < 100 by omega)
+  simp [reprGMonth, pad2_chars (show m < 100 by omega), isDig_digitChar b.1, isDig_digitChar b.2,
+    parseTz_tzReprDate hz, dval_pad2 (show m < 100 by omega), h1, h2]
+
+theorem validGMonth_reprGMonth (v : GMonthV) (hv : v.ok) (hz : v.tz.inXsd) : validGMonth (reprGMonth v) = true := by
+  obtain ⟨m, z⟩ := v
+  obtain ⟨h1, h2⟩ := hv
+  simp only at h1 h2 hz
+  have b := d2 (show m < 100 by omega)
+  simp [validGMonth, reprGMonth, pad2_chars (show m < 100 by omega), isDig_digitChar b.1, isDig_digitChar b.2,
+    dval_pad2 (show m < 100 by omega), h1, h2, validTz_tzReprDate hz]
+
+theorem parseGMonth_valid_or_lax {s : Str} {v : GMonthV} (h : parseGMonth s = some v) :
+    validGMonth (dropNl s) = true ∨ LaxZone (dropNl s) := by
+  unfold parseGMonth at h
+  generalize dropNl s = t at h ⊢
+  split at h
+  · next m1 m2 z =>
+    split at h
+    · next hdig =>
+      simp only [List.all_cons, List.all_nil, Bool.and_true, Bool.and_eq_true] at hdig
+      split at h
+      · simp at h
+      · next tz hp =>
+        simp only at h
+        split at h
+        · next hm =>
+          simp only [Bool.and_eq_true, decide_eq_true_eq] at hm
+          by_cases hv : validTz z = true
+          · left; simp [validGMonth, hdig.1, hdig.2, hm.1, hm.2, hv]
+          · right; exact ⟨['-', '-', m1, m2], z, rfl, by simp [hp], by simpa using hv⟩
+        · simp at h
+    · simp at h
+  · simp at h
+
+theorem parseGDay_reprGDay (v : GDayV) (hv : v.ok) (hz : v.tz.inPy) : parseGDay (reprGDay v) = some v := by
+  obtain ⟨d, z⟩ := v
+  obtain ⟨h1, h2⟩ := hv
+  simp only at h1 h2 hz
+  have hnl : dropNl (reprGDay ⟨d, z⟩) = reprGDay ⟨d, z⟩ := by
+    apply dropNl_eq_self
+    intro c hc
+    simp only [reprGDay, List.mem_append, List.mem_cons] at hc
+    rcases hc with rfl | rfl | rfl | h | h
+    · decide
+    · decide
+    · decide
+    · exact pad2_ne_nl _ c h
+    · exact tzReprDate_ne_nl hz c h
+  unfold parseGDay
+  rw [hnl]
+  have b := d2 (show d < 100 by omega)
+  simp [reprGDay, pad2_chars (show d < 100 by omega), isDig_digitChar b.1, isDig_digitChar b.2,
+    parseTz_tzReprDate hz, dval_pad2 (show d < 100 by omega), h1, h2]
+
+theorem validGDay_reprGDay (v : GDayV) (hv : v.ok) (hz : v.tz.inXsd) : validGDay (reprGDay v) = true := by
+  obtain ⟨d, z⟩ := v
+  obtain ⟨h1, h2⟩ := hv
+  simp only at h1 h2 hz
+  have b := d2 (show d < 100 by omega)
+  simp [validGDay, reprGDay, pad2_chars (show d < 100 by omega), isDig_digitChar b.1, isDig_digitChar b.2,
+    dval_pad2 (show d < 100 by omega), h1, h2, validTz_tzReprDate hz]
+
+theorem parseGDay_valid_or_lax {s : Str} {v : GDayV} (h : parseGDay s = some v) :
+    validGDay (dropNl s) = true ∨ LaxZone (dropNl s) := by
+  unfold parseGDay at h
+  generalize dropNl s = t at h ⊢
+  split at h
+  · next d1 d2 z =>
+    split at h
+    · next hdig =>
+      simp only [List.all_cons, List.all_nil, Bool.and_true, Bool.and_eq_true] at hdig
+      split at h
+      · simp at h
+      · next tz hp =>
+        simp only at h
+        split at h
+        · next hm =>
+          simp only [Bool.and_eq_true, decide_eq_true_eq] at hm
+          by_cases hv : validTz z = true
+          · left; simp [validGDay, hdig.1, hdig.2, hm.1, hm.2, hv]
+          · right; exact ⟨['-', '-', '-', d1, d2], z, rfl, by simp [hp], by simpa using hv⟩
+        · simp at h
+    · simp at h
+  · simp at h
+
+theorem monthDayOk_bounds {m d : Nat} (h : monthDayOk m d = true) : 1 ≤ d ∧ d ≤ 31 ∧ 1 ≤ m ∧ m ≤ 12 ∧ d ≤ maxDay m := by
+  simpa [monthDayOk, and_assoc] using h
+
+theorem parseGMonthDay_reprGMonthDay (v : GMonthDayV) (hv : v.ok) (hz : v.tz.inPy) :
+    parseGMonthDay (reprGMonthDay v) = some v := by
+  obtain ⟨m, d, z⟩ := v
+  have hb := monthDayOk_bounds hv
+  simp only at hb hz
+  have hnl : dropNl (reprGMonthDay ⟨m, d, z⟩) = reprGMonthDay ⟨m, d, z⟩ := by
+    apply dropNl_eq_self
+    intro c hc
+    simp only [reprGMonthDay, List.mem_append, List.mem_cons] at hc
+    rcases hc with rfl | rfl | h | rfl | h | h
+    · decide
+    · decide
+    · exact pad2_ne_nl _ c h
+    · decide
+    · exact pad2_ne_nl _ c h
+    · exact tzReprDate_ne_nl hz c h
+  unfold parseGMonthDay
+  rw [hnl]
+  have a := d2 (show m < 100 by omega)
+  have b := d2 (show d < 100 by omega)
+  have hok : monthDayOk m d = true := hv
+  simp [reprGMonthDay, pad2_chars (show m < 100 by omega), pad2_chars (show d < 100 by omega), isDig_digitChar a.1,
+    isDig_digitChar a.2, isDig_digitChar b.1, isDig_digitChar b.2, parseTz_tzReprDate hz,
+    dval_pad2 (show m < 100 by omega), dval_pad2 (show d < 100 by omega), hok]
+
+theorem validGMonthDay_reprGMonthDay (v : GMonthDayV) (hv : v.ok) (hz : v.tz.inXsd) :
+    validGMonthDay (reprGMonthDay v) = true := by
+  obtain ⟨m, d, z⟩ := v
+  have hb := monthDayOk_bounds hv
+  simp only at hb hz
+  have a := d2 (show m < 100 by omega)
+  have b := d2 (show d < 100 by omega)
+  simp [validGMonthDay, reprGMonthDay, pad2_chars (show m < 100 by omega), pad2_chars (show d < 100 by omega),
+    isDig_digitChar a.1, isDig_digitChar a.2, isDig_digitChar b.1, isDig_digitChar b.2,
+    dval_pad2 (show m < 100 by omega), dval_pad2 (show d < 100 by omega), hb, validTz_tzReprDate hz]
+
+theorem parseGMonthDay_valid_or_lax {s : Str} {v : GMonthDayV} (h : parseGMonthDay s = some v) :
+    validGMonthDay (dropNl s) = true ∨ LaxZone (dropNl s) := by
+  unfold parseGMonthDay at h
+  generalize dropNl s = t at h ⊢
+  split at h
+  · next m1 m2 d1 d2 z =>
+    split at h
+    · next hdig =>
+      obtain ⟨h1, h2, h3, h4⟩ := all4 hdig
+      split at h
+      · simp at h
+      · next tz hp =>
+        simp only at h
+        split at h
+        · next hm =>
+          have hb := monthDayOk_bounds hm
+          by_cases hv : validTz z = true
+          · left; simp [validGMonthDay, h1, h2, h3, h4, hb, hv]
+          · right; exact ⟨['-', '-', m1, m2, '-', d1, d2], z, rfl, by simp [hp], by simpa using hv⟩
         · simp at h
     · simp at h
   · simp at h
